@@ -142,7 +142,7 @@ func setCell(path, kind, content string) {
 // Model.Cli.run evaluated on the library's own answer for the same texts.
 func C18(e *core.Env) {
 	res := e.Res
-	res.Rule = "cases = (subcommand, argument count, profile, data, prior state of the output path) and histories of 2-4 runs into one path; PROFILE / DATA given as a named pipe or as /dev/stdin behind a pipe; " +
+	res.Rule = "cases = (subcommand, argument count, profile, data, prior state of the output path) and histories of 2-4 runs into one path; PROFILE / DATA given as a named pipe or as /dev/stdin behind a pipe; a document with a 77 000-character string (validate, normalize); an output path whose writes fail (/dev/full); " +
 		"non-trivial = the command reaches the library and, for file output, the prior content differs from the new report; distinct by (command, profile, data, prior-state kind, history)"
 	acv := filepath.Join(e.Scratch, "acv")
 	build := exec.Command("go", "build", "-o", acv, "./cmd/main.go")
@@ -162,7 +162,9 @@ func C18(e *core.Env) {
 	}
 	type named struct{ name, text string }
 	profiles := []named{{"min", PoolProfileMin}, {"levels", PoolProfileLevels}, {"special", PoolProfileSpecial}, {"broken", PoolProfileBroken}, {"badyaml", PoolProfileBadYaml}}
-	datas := []named{{"good", PoolDataGood}, {"bad", PoolDataBad}, {"special", PoolDataSpecial}, {"empty", PoolDataEmpty}, {"garbage", PoolDataGarbage}, {"truncated", PoolDataTruncated}}
+	// a document holding one very long string (longer than any line buffer a printer might use)
+	longText := `{"@graph":[{"@id":"http://example.org/d#long","@type":"http://example.org/ns#Thing","http://example.org/ns#name":"` + strings.Repeat("long-value ", 7000) + `"}]}`
+	datas := []named{{"good", PoolDataGood}, {"bad", PoolDataBad}, {"special", PoolDataSpecial}, {"empty", PoolDataEmpty}, {"garbage", PoolDataGarbage}, {"truncated", PoolDataTruncated}, {"long-line", longText}}
 	root := os.Geteuid() == 0
 	if root {
 		res.Note("running as root: a read-only prior file cannot be made unwritable, so the read-only prior state is exercised as a directory only")
@@ -227,6 +229,22 @@ func C18(e *core.Env) {
 					map[string]any{"argv": []string{"validate", pp, dp, outp}, "profile": p.text, "data": d.text, "prior_state": pr.name, "prior_content": core.Trunc(pr.text, 200)})
 				os.Chmod(outp, 0o644)
 				os.RemoveAll(outp)
+			}
+		}
+	}
+
+	// an output path on which every write fails (/dev/full: no space left on device): a failure, not a silent success
+	if _, err := os.Stat("/dev/full"); err == nil {
+		for _, pd := range [][2]int{{0, 0}, {0, 1}, {1, 1}} {
+			p, d := profiles[pd[0]], datas[pd[1]]
+			pp := filepath.Join(work, "p_"+p.name+".yaml")
+			dp := filepath.Join(work, "d_"+d.name+".jsonld")
+			r := runCli(acv, "validate", pp, dp, "/dev/full")
+			res.Case("validate-file/"+p.name+"/"+d.name+"/dev-full", true)
+			res.Count("prior=dev-full")
+			if r.exit == 0 || r.stdout != "" {
+				res.Violate("impl-violates-property", fmt.Sprintf("acv validate into an output path whose writes fail (/dev/full) ends with exit status %d: the report was not written and nothing says so", r.exit),
+					map[string]any{"argv": []string{"validate", pp, dp, "/dev/full"}, "profile": p.text, "data": d.text, "exit": r.exit, "stdout": core.Trunc(r.stdout, 400)})
 			}
 		}
 	}
